@@ -73,7 +73,7 @@ package reactor
 //@   after LoadAndDelete(stateTable)#1: outCnt = ite(opLoaded, outCnt - 1, outCnt); myOut = 0; pendFin = ite(opLoaded, pendFin + 1, pendFin); myFin = ite(opLoaded, 1, 0)
 //@   after recv(tokenPool)#1: pendFin = pendFin - 1; myFin = 0
 //@   nonblock recv(tokenPool)#1
-//@   ensures [released] myFin == 0 && myOut == 0 // C12: given back exactly when that seed is marked finished
+//@   ensures [released] @C12,C16 myFin == 0 && myOut == 0 // C12: given back exactly when that seed is marked finished; C16: MarkAsFinished deletes the state entry (the reactor tracks no finished seed, its token is free)
 //@   ensures [repeated] old(globalReactor != nil && !tracked(globalReactor.stateTable, item.id)) ==> result != nil // C12: a repeated finish is rejected
 //@   ensures [finished] old(globalReactor != nil && tracked(globalReactor.stateTable, item.id)) ==> result == nil
 
